@@ -213,11 +213,14 @@ type codegen struct {
 	ifaces          map[string]*ifaceInfo
 	ifaceDecls      map[string]*ast.InterfaceType
 	white4Set       map[fnKey]bool
-	prefix          string             // Lean name prefix of the functions of a sub-package
-	reservedStructs map[string][]field // struct names of the root package (a sub-package must not re-use them)
-	opaqueOf        map[fnKey]bool     // callees that are parameters of the translated functions
-	spOf            map[spKey]*spInfo  // code_opq.go: opaque state-passing callees (parameters as well)
-	cbTypes         map[string][]gtype // callback log type -> the parameter types of the callback
+	prefix          string                 // Lean name prefix of the functions of a sub-package
+	reservedStructs map[string][]field     // struct names of the root package (a sub-package must not re-use them)
+	opaqueOf        map[fnKey]bool         // callees that are parameters of the translated functions
+	spOf            map[spKey]*spInfo      // code_opq.go: opaque state-passing callees (parameters as well)
+	cbTypes         map[string][]gtype     // callback log type -> the parameter types of the callback
+	winOK           map[string]*windowLoop // code_cblift.go: the checked window loop per field name
+	winWhy          map[string]string      // code_cblift.go: why the window conditions fail for a field name
+	helperPhase5    bool                   // code_cblift.go: helperCallees runs for a topic of the fifth part
 	white2Set       map[fnKey]bool
 	structPhase     map[string]int
 	sigs            map[fnKey]*fnSig
